@@ -140,7 +140,7 @@ func (r *runner) call(op *Op) {
 		if who == "" {
 			who = "rt"
 		}
-		s.Route(p, who, op.Method, op.Path, op.Headers, op.body())
+		s.Route(p, who, op.Method, op.Path, op.Name, op.Headers, op.body())
 	case "register":
 		name := op.Name
 		if name == "" {
